@@ -24,6 +24,11 @@ def proved_names(pr, info):
     return sorted(byid[i] for i in ids if i in byid)
 
 
+def per_version(pr):
+    m = re.search(r"=\s*\[([^\]]*?)\]\s*:\s*list nat", pr["log"], re.S)
+    return [int(x.strip().replace("%nat", "")) for x in m.group(1).replace("\n", " ").split(";") if x.strip()] if m else []
+
+
 def known_shader_type(n, vn, kv):
     """FO76/Starfield BSLightingShaderProperty: the shader type is written before it is adjusted and the
     member is decremented in place (Shaders.cpp:411-424)"""
@@ -119,11 +124,18 @@ def run(tier, seed, replay=None):
     if (not pr["ok"] or lost or hygiene) and not fails:
         rep.violation("round-trip obligation no longer discharged for: %s" % (",".join(lost[:10]) or ",".join(pr["failed"]) or ",".join(hygiene)),
                       {"broken": "obligations of coq/Properties/Properties_C01.v for " + ",".join(lost), "log": pr["log"][-1500:] if not pr["ok"] else ""}, found_input=False)
-    cov["obligations"] += len(base)
-    cov["discharged"] += len(set(base) & set(proved))
+    pv = per_version(pr) if pr["ok"] else []
+    basepv = json.load(open(os.path.join(vlib.ROOT, "baseline", "proved_obligations.json"))).get(PID + "_per_version", [])
+    pv_lost = [k for k, (a, b) in enumerate(zip(pv, basepv)) if a < b] if pv else list(range(len(basepv)))
+    if pv_lost and not lost and not fails:
+        rep.violation("round-trip obligation discharged for fewer block types than the baseline in version(s) #%s" % ",".join(map(str, pv_lost)),
+                      {"broken": "per-version obligation counts of coq/Properties/Properties_C01.v", "now": pv, "baseline": basepv}, found_input=False)
+    cov["obligations"] += len(base) + sum(basepv)
+    cov["discharged"] += len(set(base) & set(proved)) + sum(min(a, b) for a, b in zip(pv, basepv))
     cov.update({
         "per_type_obligations": {"baseline": len(base), "discharged_now": len(set(base) & set(proved)), "lost": lost,
-                                 "newly_discharged_not_in_baseline": sorted(set(proved) - set(base))},
+                                 "newly_discharged_not_in_baseline": sorted(set(proved) - set(base)),
+                                 "types_per_version_now": pv, "types_per_version_baseline": basepv},
         "unproved": ["block types outside the baseline: " + ",".join(sorted(set(info["blocks"]) - set(proved))),
                      "file level (header, string table, PrepareData/FinalizeData moves): explored on samples and generated files, not proved here (header/string table: C07)"],
         "evaluations": stats["block_instances"] + stats["sample_resaves"] + stats["generated_files"],
